@@ -160,6 +160,38 @@ def run(ctx):
             files.append((p, "patched-" + mname))
     for p in dwforest.sample_files():
         files.append((p, "sample"))
+    # archives: one module per member; the symbols of all members, in member order, numbered through
+    small = os.path.join(d, "small.s")
+    with open(small, "w") as f:
+        f.write("\t.text\n\t.globl only_one\n\t.type only_one, @function\nonly_one:\n\tnop\n\t.size only_one, .-only_one\n")
+    subprocess.run(["as", "-o", os.path.join(d, "small.o"), small], check=True)
+    archives = []
+    for name, members in (("lib-big-small-big.a", ["sym0.o", "small.o", "sym1.o"]), ("lib-small-first.a", ["small.o", "sym1.o", "small.o", "sym0.o"])):
+        ap = os.path.join(d, name)
+        if os.path.exists(ap):
+            os.unlink(ap)
+        subprocess.run(["ar", "rcS", ap] + members, cwd=d, check=True)
+        archives.append((ap, [os.path.join(d, m) for m in members]))
+    for ap, members in archives:
+        truth = []
+        for m in members:
+            truth += elfsym.Elf(m).symbols()
+        got, err = impl_syms(ap)
+        evaluations += 1
+        case = {"file": ap, "kind": "archive", "members": members}
+        if got is None:
+            bad("read", "`symbol` fails on the archive %s: %s" % (os.path.basename(ap), err), case)
+            continue
+        if len(got) != len(truth):
+            bad("count", "`symbol` yields %d symbols on the archive %s; its members hold %s = %d" % (len(got), os.path.basename(ap), [len(elfsym.Elf(m).symbols()) for m in members], len(truth)), case)
+            continue
+        for i, (g, t) in enumerate(zip(got, truth)):
+            nsyms += 1
+            want = {"pos": i, "name": t["name"], "value": t["value"], "size": t["size"], "type": t["type"], "bind": t["bind"], "vis": t["vis"]}
+            diff = [k for k in want if g[k] != want[k]]
+            if diff:
+                bad("field:" + diff[0], "symbol %d (%r) of the archive %s: %s is %s; the member stores %s" % (i, t["name"][:40], os.path.basename(ap), diff[0], g[diff[0]], want[diff[0]]), dict(case, index=i))
+                break
     machines_seen = set()
     for path, kind in files:
         try:
@@ -205,7 +237,7 @@ def run(ctx):
     common.report_broken_obligations(ctx, oblig, bool(ctx.violations))
     ctx.cov.update({
         "evaluations": evaluations, "distinct_nontrivial": nsyms,
-        "rule": "%d ELF files: freshly assembled objects (40/120 generated symbols each: function/object/tls/notype/ifunc/unique/common x global/weak/local x default/hidden/protected/internal, absolute, undefined, weak undefined, section and file symbols, long names), each also patched to random type/binding codes 0-15 with st_other upper bits set and re-labelled as %s; the sample binaries; every symbol compared on pos, name, value, address, size, type, binding, visibility with a struct-level reader (cross-checked with readelf -sW), and every file x every STT_/STB_ word (%d) on the family rule" % (len(files), "/".join(MACHINES), len(words)),
+        "rule": "%d ELF files: freshly assembled objects (40/120 generated symbols each: function/object/tls/notype/ifunc/unique/common x global/weak/local x default/hidden/protected/internal, absolute, undefined, weak undefined, section and file symbols, long names), each also patched to random type/binding codes 0-15 with st_other upper bits set and re-labelled as %s; the sample binaries; two ar archives of three and four members (one module per member, symbols of all members in order); every symbol compared on pos, name, value, address, size, type, binding, visibility with a struct-level reader (cross-checked with readelf -sW), and every file x every STT_/STB_ word (%d) on the family rule" % (len(files), "/".join(MACHINES), len(words)),
         "samples": [], "machines_seen": sorted(machines_seen), "traces_validated_against_impl": nsyms + evaluations, "violations_by_kind": viol,
     })
     return ctx.finish(oblig)
